@@ -11,10 +11,12 @@ FR = {
     "cont0": ("F", 0, 0, b"cd".hex()), "cont1": ("F", 0, 1, b"ef".hex()), "ping": ("F", 9, 1, b"pp".hex()),
     "pong": ("F", 10, 1, b"oo".hex()), "close": ("F", 8, 1, b"\x03\xe9bye".hex()), "close0": ("F", 8, 1, ""),
     "etext": ("F", 1, 1, ""), "utf": ("F", 1, 1, "é€".encode().hex()),
+    "tsplit0": ("F", 1, 0, "5 €".encode()[:3].hex()), "tsplit1": ("F", 0, 1, ("5 €".encode()[3:] + b" only").hex()),
 }
 ENDS = [[FR["close"]], [FR["close0"]], [("BC",)], [("BR",)], [("BP",)], [("BY",)], [("T",)], [("O",), ("F", 8, 1, b"\x03\xe8".hex())], [("O",)]]
 TRAFFIC = [[], [FR["text"]], [FR["bin"], FR["ping"]], [FR["tfrag0"], FR["ping"], FR["cont0"], FR["cont1"]], [FR["pong"], FR["utf"]],
-           [FR["text"], FR["etext"], FR["bin"]], [FR["ping"], FR["pong"], FR["ping"]]]
+           [FR["text"], FR["etext"], FR["bin"]], [FR["ping"], FR["pong"], FR["ping"]],
+           [FR["tsplit0"], FR["ping"], FR["tsplit1"], FR["text"]]]       # a text message cut inside a multi-byte character
 
 
 def gen(tier, rng, reconnect_values=(0,)):
@@ -58,14 +60,14 @@ def gen(tier, rng, reconnect_values=(0,)):
                 yield {"callbacks": dict(allret), "attempts": [{"evs": tr + [("F", 8, 1, body.hex())]}], "skip": skip}
                 yield {"callbacks": {"on_close": "ret"}, "attempts": [{"evs": tr + [("F", 8, 1, body.hex())]}], "skip": skip}
     # 4. refused / rejected, no reconnect
-    for a in ({"refuse": True}, {"status": 404}, {"status": 500}):
+    for a in ({"refuse": True}, {"status": 404}, {"status": 500}, {"status": 403, "short_body": True}, {"unreachable": 113}, {"unreachable": 101}):
         yield {"callbacks": dict(allret), "attempts": [a]}
         yield {"callbacks": {"on_close": "ret"}, "attempts": [a]}
 
 
 def gen_reconnect(tier, rng):
     allret = {c: "ret" for c in CBS}
-    outcomes = [{"refuse": True}, {"status": 503}, {"evs": [("BC",)]}, {"evs": [FR["text"], ("BR",)]}, {"evs": [FR["bin"], ("T",)]},
+    outcomes = [{"refuse": True}, {"unreachable": 113}, {"status": 503}, {"evs": [("BC",)]}, {"evs": [FR["text"], ("BR",)]}, {"evs": [FR["bin"], ("T",)]},
                 {"evs": [FR["text"], FR["close"]]}, {"evs": [("BP",)]},
                 # losses in the middle of a message and in the middle of a frame: nothing of them may survive into the next connection
                 {"evs": [FR["tfrag0"], ("BC",)]}, {"evs": [FR["text"], ("P", "827e"), ("BR",)]}, {"evs": [("P", "81"), ("BC",)]}]
@@ -108,10 +110,14 @@ def compare(ctx, T, scs, bucket):
     outs = ctx.model.run_parallel([model_line(sc) for sc in scs]) if ctx.model else [None] * len(scs)
     results = []
     for sc, mo in zip(scs, outs):
-        if T.saturated("spec") or T.saturated("corr"):
+        if T.saturated("spec"):
             break
         res, il = run_one(sc)
         results.append((sc, res, il, mo))
+        if res.get("spun"):
+            T.fail("spec", {"scenario": model_line(sc), "sc": sc}, "every read at end of stream ends the attempt", "the library kept reading a transport that is at end of stream",
+                   {"site": "connect", "cls": "spins-at-eof"}, what="run_forever does not return: a connection attempt spins at end of stream")
+            continue
         if res.get("runaway"):
             T.fail("spec", {"scenario": model_line(sc), "sc": sc}, "the run ends once the scripted server has closed the last connection",
                    f"still opening connections after {len(res['attempts'])} attempts: {il[:160]}", {"site": "reconnect", "cls": "runaway-reconnect"},
@@ -184,6 +190,19 @@ def judge_c13(T, ctx, sc, res, il):
         T.fail("spec", {"scenario": model_line(sc), "sc": sc}, str(want)[:400], str(got)[:400], {"site": "run_forever", "cls": "callback-sequence"},
                what="callbacks are not 'on_open, then every message/ping/pong exactly once in the order sent'")
         return
+    # what the client wrote while delivering: one pong per ping with its payload, in order, at most one close frame, nothing else
+    # (the application's callbacks of these scenarios send nothing themselves)
+    if not any(x.startswith("err:") for x in got) and res["sockets"]:
+        frames_written = res["sockets"][0]["frames"]
+        pongs = [f[2] for f in frames_written if f[0] == 10]
+        pings_in = [bytes.fromhex(e[3]).hex() for e in a["evs"] if e[0] == "F" and e[1] == 9]
+        others = [f for f in frames_written if f[0] not in (8, 9, 10)]      # (9: the client's own keepalive pings in scenarios that end by a ping timeout)
+        ncl = sum(1 for f in frames_written if f[0] == 8)
+        if pongs != pings_in[:len(pongs)] or len(pongs) < len([it for it in items if it.startswith("P:")]) or others or ncl > 1:
+            T.fail("spec", {"scenario": model_line(sc), "sc": sc}, f"pongs {pings_in}, at most one close frame, nothing else",
+                   f"pongs {pongs}, other frames {others[:3]}, close frames {ncl}", {"site": "run_forever", "cls": "frames-written"},
+                   what="while delivering events the client must write exactly one pong per ping (same payload, in order) and nothing else")
+            return
     # promptness: every callback fires at the arrival time of the frame that completes its item
     t = 0.0
     arrivals = []
@@ -372,6 +391,7 @@ def run(ctx, which="C13"):
         second_runs(ctx, T, rng)
         failing_later_runs(ctx, T)
         multi_runs(ctx, T, rng)
+        later_run_keepalive(ctx, T)
         closer_threads(ctx, T, rng)
     if which == "C15":
         external_dispatcher(ctx, T, rng)
@@ -561,6 +581,29 @@ def multi_runs(ctx, T, rng):
             return
 
 
+def later_run_keepalive(ctx, T):
+    """keepalive must work on EVERY run of an object, not only the first: a later run against a server that goes silent after the
+    handshake must still end with the ping/pong timeout, on_error and on_close"""
+    from sim.sock import server_frame
+    allret = {c: "ret" for c in CBS}
+    for first in ([[1, "D", server_frame(8, b"\x03\xe8").hex()]], [[1, "EOF"]], [[1, "D", server_frame(1, b"x").hex()], [20, "D", server_frame(8, b"").hex()]]):
+        sim = {"callbacks": dict(allret), "attempts": [{"events": first}, {"events": []}, {"events": []}], "args": {"ping_interval": 4, "ping_timeout": 2}, "runs": 3}
+        res = run_app(sim)
+        idx = [i for i, e in enumerate(res["trace"]) if e[1] == "returned"]
+        runs, start = [], 0
+        for i in idx:
+            runs.append([e[1:3] for e in res["trace"][start:i]])
+            start = i + 1
+        T.case(("later-run-keepalive", str(first)[:40]), nontrivial=True, bucket="second-run", sample={"first": str(first)[:60], "runs": str(runs)[:200], "returns": res["returns"]})
+        ok = len(runs) == 3 and not res.get("stuck") and all(any(e[0] == "error" and e[1] == "exc:TimedOut" for e in r) and r[-1][0] == "close" for r in runs[1:]) \
+            and res["returns"][1:] == [True, True]
+        if not ok:
+            T.fail("spec", {"kind": "later-run-keepalive", "sim": sim}, "runs 2 and 3 (silent server) end with the ping/pong timeout reported and on_close, returning True",
+                   f"{res['returns']} stuck={res.get('stuck')} {str(runs)[:240]}", {"site": "ping-thread", "cls": "keepalive-dead-on-later-run"},
+                   what="on a later run of the same object the keepalive did not detect a silent server")
+            return
+
+
 def external_dispatcher(ctx, T, rng):
     allret = {c: "ret" for c in CBS}
     from sim.sock import server_frame
@@ -592,6 +635,10 @@ def search(ctx, which="C13"):
 
 def replay(ctx, sc):
     """re-run one recorded scenario on the implementation and judge it again"""
+    if sc.get("kind") == "later-run-keepalive":
+        T = Tally()
+        later_run_keepalive(ctx, T)
+        return T.failures[0] if T.failures else None
     if sc.get("kind") in ("closer", "burst2") and "sim" in sc:
         res = run_app(sc["sim"])
         summary = {"returns": res["returns"], "trace": [[e[0], e[1]] for e in res["trace"]][:40], "stuck": res.get("stuck")}
